@@ -61,6 +61,21 @@ Case remove_indices(const Case &c, const std::vector<int> &rm) {
     return d;
 }
 
+// a history is well-formed if every op that reuses factors or symbolic data is preceded by a first-time factorization
+bool well_formed(const Case &c) {
+    bool have = false; bool route = false;
+    for (auto &o : c.ops) {
+        bool first = (o.kind == OP_GSSV) || (o.kind == OP_GSSVX && o.x.fact != 2 && !o.x.refact) || (o.kind == OP_ROUTE && !o.x.refact);
+        if (o.kind == OP_GSSVX && o.x.lwork == -1) continue;
+        if (first) { if (have && o.kind != OP_GSSV) return false; have = true; route = o.kind == OP_ROUTE; continue; }
+        if (o.kind == OP_ROUTE_FINALIZE) { if (have) return false; route = false; continue; }
+        if (!have) return false;
+        if (o.kind == OP_DESTROY) have = false;
+        (void)route;
+    }
+    return true;
+}
+
 } // namespace
 
 MinResult minimise_and_write(Case c, const std::string &prop, const std::string &sig, const std::string &replay_dir,
@@ -88,7 +103,7 @@ MinResult minimise_and_write(Case c, const std::string &prop, const std::string 
     // 2. drop operations (histories)
     for (size_t i = best.ops.size(); i-- > 0 && best.ops.size() > 1;) {
         Case cand = best; cand.ops.erase(cand.ops.begin() + (long)i);
-        attempt(cand);
+        if (well_formed(cand)) attempt(cand);
     }
     // 3. drop faults
     for (size_t i = 0; i < best.ops.size(); ++i) {
